@@ -181,3 +181,14 @@ def run(ctx):
                         "compile-time cases that stop on a constexpr resource limit are inconclusive"]
     runtime_part(ctx)
     compile_time_part(ctx)
+    # coverage-guided campaign (structure-aware decode, oracle inside the target); short in quick, long in thorough
+    from .. import fuzzrun
+    import struct
+    seeds = [bytes([0]) + struct.pack("<Q", v) + bytes([0]) for v in (18446744073709551557, 3825123056546413051, 1373653, 4294967291 * 4294967291 % (1 << 64))]
+    res, err = fuzzrun.campaign(ctx, "c12_fuzz", 150000 if ctx.quick() else 20000000, 64, seeds=seeds)
+    if res is None:
+        if core.HARNESS_BUG_RE.search(err):
+            raise RuntimeError("c12 fuzz target does not build: " + err[-800:])
+        ctx.bump("fuzz_target_build_failed")
+    else:
+        fuzzrun.report(ctx, "C12", "c12_fuzz", (res, ""), "library helper disagrees with the independent oracle")
